@@ -1129,6 +1129,20 @@ func (z *Decimal) SetInf(signbit bool) *Decimal {
 const log2_10 = math.Ln10 / math.Ln2
 const log10_2 = math.Ln2 / math.Ln10
 
+// clampExp limits an exponent argument to a range in which the int64
+// exponent arithmetic below cannot wrap around. Exponents outside of
+// that range lead to an underflow or an overflow anyway.
+func clampExp(exp int64) int64 {
+	const lim = 1 << 40
+	if exp > lim {
+		return lim
+	}
+	if exp < -lim {
+		return -lim
+	}
+	return exp
+}
+
 // SetInt sets z to the (possibly rounded) value of x and returns z. If z's
 // precision is 0, it is changed, after conversion, to max(z.MinPrec(), DefaultDecimalPrec) (and
 // rounding will have no effect).
@@ -1178,7 +1192,7 @@ func (z *Decimal) setBits64(neg bool, x uint64, exp int64) *Decimal {
 	// x != 0
 	z.form = finite
 	z.mant = z.mant.setUint64(x)
-	z.setExpAndRound(exp+int64(len(z.mant))*_DW-dnorm(z.mant), 0)
+	z.setExpAndRound(clampExp(exp)+int64(len(z.mant))*_DW-dnorm(z.mant), 0)
 	return z
 }
 
@@ -1239,7 +1253,7 @@ func (z *Decimal) SetMantExp(mant *Decimal, exp int) *Decimal {
 	if z.form != finite {
 		return z
 	}
-	z.setExpAndRound(int64(z.exp)+int64(exp), 0)
+	z.setExpAndRound(int64(z.exp)+clampExp(int64(exp)), 0)
 	return z
 }
 
@@ -1681,7 +1695,7 @@ func (z *Decimal) SetBitsExp(mant []Word, exp int64) *Decimal {
 	z.mant = dec(mant).norm()
 	z.neg = false
 	if len(z.mant) > 0 {
-		z.setExpAndRound(exp-dnorm(z.mant)-int64(len(mant)-len(z.mant))*_DW, 0)
+		z.setExpAndRound(clampExp(exp)-dnorm(z.mant)-int64(len(mant)-len(z.mant))*_DW, 0)
 	} else {
 		z.acc = Exact
 		z.form = zero
